@@ -12,6 +12,7 @@ Line-protocol driver for the C01 model (kv manifest / crash recovery).
   die <k>                                 the process dies; the disk is the one after the first k FS ops
   crash <k>                               observation: reopen the disk after the first k FS ops
   crashx <k>                              same, the recovery's own FS trace is not printed
+  crashj <k> <n>                          disk after k FS ops with a partial last record in MANIFEST-n; two reopens
   enc <fid> <log> ...                     hex of editLog.marshal
   dec <hex>                               editLog.unmarshal
 
@@ -281,6 +282,27 @@ def step (s : DSt) (ws : List String) : DSt × String :=
       | some d => (s, crashOut s.cfg d false)
       | none => (s, "bad-op")
     | none => (s, "bad-op")
+  | ["crashj", k, n] =>
+    -- the disk after the first k FS ops, where MANIFEST-n (being written, not named by CURRENT) ends in
+    -- a partial record; reopened, closed, reopened again
+    match k.toNat?, n.toInt? with
+    | some k, some n =>
+      match s.disks[k]? with
+      | some d =>
+        let d0 : Disk := match Map.lookup d.manifests n with
+          | some mf => { d with manifests := Map.upsert d.manifests n ⟨mf.recs.dropLast, true⟩ }
+          | none => d
+        let (m1, ops1) := openStore s.cfg d0
+        let d1 := applyFsList d0 ops1
+        match m1 with
+        | none => (s, s!"err1 fs={traceTok ops1}")
+        | some m =>
+          let d1' := applyFsList d1 (closeStore m)
+          let out2 := crashOut s.cfg d1'
+          if out2.startsWith "ok " then (s, s!"ok fs1={traceTok ops1} " ++ (out2.drop 3).toString)
+          else (s, s!"err2 fs1={traceTok ops1} " ++ (out2.drop 4).toString)
+      | none => (s, "bad-op")
+    | _, _ => (s, "bad-op")
   | "enc" :: fid :: toks =>
     match fid.toInt?, toks.mapM parseLog with
     | some f, some logs => (s, hex (marshal ⟨f, logs⟩))
